@@ -222,7 +222,7 @@ def build_coq(prop, tier, report):
 
 def build_model_vo():
     ensure_makefile()
-    r = sh(["timeout", "1500", "make", "-j16", "Model/Program.vo"], cwd=COQ)
+    r = sh(["timeout", "1500", "make", "-j16", "Model/Program.vo", "Model/Probe.vo"], cwd=COQ)
     if r.returncode != 0:
         raise RuntimeError("model build failed:\n" + r.stdout[-3000:])
 
